@@ -48,7 +48,10 @@ Remove(k, f, sc) ==
     /\ IF ~HasKey(k) THEN UNCHANGED stack
        ELSE LET e == Entry(k) IN
             IF f > 0 /\ ~e.fo
-            THEN /\ stack' = (stack \ {e}) \cup {[prio |-> e.prio, key |-> k, sc |-> sc, dc |-> 0, dt |-> now + f, fo |-> TRUE]}
+            \* the fade-out starts from the colour the removed key itself shows at this instant (its own colour, or a point
+            \* of its own running fade) - the endpoints of the removal are that colour and whatever lies beneath
+            THEN /\ InR(sc, Range({e}, now))
+                 /\ stack' = (stack \ {e}) \cup {[prio |-> e.prio, key |-> k, sc |-> sc, dc |-> 0, dt |-> now + f, fo |-> TRUE]}
             ELSE stack' = stack \ {e}
     /\ act' = [op |-> "remove", k |-> k, f |-> f]
 ClearStack == /\ Budget /\ stack' = {} /\ UNCHANGED now /\ act' = [op |-> "clear"]
